@@ -299,7 +299,8 @@ def run(ctx):
     def _mentions_target_id(e):
         return any(isinstance(n, ast.Attribute) and n.attr == "id" and isinstance(n.value, ast.Attribute) and n.value.attr == "target" for n in ast.walk(e))
 
-    for fn in funcs_in(ev_fn):
+    # (the guard may sit in _eval's nested generator functions or in a method of the matcher the GeneratorExp branch hands the node to)
+    for fn in list(funcs_in(ev_fn)) + [f for f in funcs_in(rcm) if f is not ev_fn and not any(f is g for g in funcs_in(ev_fn))]:
         fal = single_assign_aliases(fn)
         for st in ast.walk(fn):
             if not (isinstance(st, ast.If) and all_paths_raise(cfg, st.body)):
